@@ -76,6 +76,8 @@ def chars_pool(rng, thorough):
         vals.append("".join(chr(rng.choice((rng.randrange(32, 127), rng.randrange(0xA0, 0x800),
                                             rng.randrange(0x800, 0xD800), rng.randrange(0x10000, 0x10FFFF))))
                             for _ in range(n)))
+    # a byte order mark is a character like any other, wherever it stands
+    vals += ["\ufeff", "\ufeffAHU-3 supply fan", "a\ufeffb", "\ufeff\ufeff", "\ufffe", "\ufeff" + "x" * 253]
     # lone surrogates cannot be carried by any of the standard's character sets: they must be refused, wherever they sit
     vals += ["\ud800", "\udc80", "\udcff", "\udfff", "\udbff", "caf\udce9", "r\udce9sum\udce9 \u20ac", "\udc80" * 3, "a\ud800b", "\udcc3\udca9"]
     return vals
@@ -117,7 +119,7 @@ def quad_pool(rng, thorough):
 
 
 def objid_pool(rng, nrandom):
-    out = []
+    out = [("vendorPump", 7), ("vendorValve", 0), ("vendorThing", 4194303), ("analogValue", 1), ("device", 4194302)]
     for t in range(1024):
         for inst in (0, 1, 0x3FFFFE, 0x3FFFFF):
             out.append((t, inst))
@@ -313,6 +315,25 @@ def check_unrepresentable_context(run, cls, v):
             return
 
 
+_VENDOR = []
+
+
+def vendor_classes():
+    """what a vendor does with the library: an object type enumeration with names of its own and an object identifier class
+    that uses it (the names have to survive like the standard ones)"""
+    if not _VENDOR:
+        from bacpypes.primitivedata import ObjectIdentifier, ObjectType, expand_enumerations
+
+        class VendorObjectType(ObjectType):
+            enumerations = {"vendorPump": 600, "vendorValve": 1023, "vendorThing": 128}
+        expand_enumerations(VendorObjectType)
+
+        class VendorObjectIdentifier(ObjectIdentifier):
+            objectTypeClass = VendorObjectType
+        _VENDOR.extend([VendorObjectIdentifier])
+    return list(_VENDOR)
+
+
 def main():
     run = Run("C01", "exploration", RULE, assumptions=[
         "struct's IEEE-754 packing is trusted as the reference for Real/Double",
@@ -328,7 +349,7 @@ def main():
         return run.finish(require=("octets_compared", "decodes_compared", "refusals"))
 
     rng = run.rng("c01")
-    classes = atomic_classes()
+    classes = atomic_classes() + vendor_classes()
     run.extra["classes"] = len(classes)
     nrand = 4000 if thorough else 300
     ctx_edge = [0, 1, 14, 15, 16, 254]
@@ -361,7 +382,7 @@ def main():
             values += [[n] for n in list(getattr(cls, "bitNames", {}))[:8]]
         else:
             values = pools[kind]
-        base = cls.__module__.endswith("primitivedata")
+        base = cls.__module__.endswith("primitivedata") or cls in _VENDOR
         for vi, v in enumerate(values):
             index += 1
             if not run.mine(index):
